@@ -342,7 +342,7 @@ def run(sc, color=False, rec=None):
 # ----------------------------------------------------------------------------- judging
 
 class Seg:
-    __slots__ = ('kind', 'payload', 'outs', 'errs', 'seq')
+    __slots__ = ('kind', 'payload', 'outs', 'errs', 'seq', 'fault')
 
 
 def segments(rec):
@@ -364,11 +364,14 @@ def segments(rec):
             cur.outs = []
             cur.errs = []
             cur.seq = seq
+            cur.fault = False
             segs.append(cur)
         elif kind == 'out':
             cur.outs.append(L.classify(seq, payload))
         elif kind == 'err':
             cur.errs.append(payload)
+        elif kind == 'fault-write' and cur is not None:
+            cur.fault = True      # an injected output-write fault (Ctrl-C inside the write) hit something this step printed
     return segs
 
 
@@ -433,6 +436,8 @@ def judge(sc, st, res, tr, cmd_metas, V, want):
             exp = MUSTNOT if not sel_ok else fv
             if exp == DC:
                 V.bump('dontcare_live_filter')
+            elif exp == MUST and not shown and getattr(seg, 'fault', False):
+                V.bump('live_line_lost_to_injected_output_fault')
             elif exp == MUST and not shown:
                 d = 'message %s (conn %s) matches filter %r (selection %r) but was not shown' % (cl.brief(), nm, fstate.describe(), selected)
                 rep('C06', 'C06/hidden-match', 'live', d)
@@ -448,6 +453,8 @@ def judge(sc, st, res, tr, cmd_metas, V, want):
             bexp = MUSTNOT if not sel_ok else bv
             if bexp == DC:
                 V.bump('dontcare_live_break')
+            elif bexp == MUST and not stopped and getattr(seg, 'fault', False):
+                V.bump('stopped_at_notice_preempted_by_injected_output_fault')    # the KeyboardInterrupt halts the program instead
             elif bexp == MUST and not stopped:
                 rep('C12', 'C12/must-selected', 'breakpoint', 'message %s should hit breakpoint %r: no Stopped-at notice' % (cl.brief(), bstate.describe()))
             elif bexp == MUSTNOT and stopped:
@@ -504,7 +511,12 @@ def judge(sc, st, res, tr, cmd_metas, V, want):
     for wc, nm in names.items():
         truth = st.world.conns[wc].msgs
         snaps = tr.msgs.get(nm, [])
-        if len(snaps) != len(truth) or any(s.name != c.name for s, c in zip(snaps, truth)):
+        faulted = any(getattr(g, 'fault', False) for g in segs)
+        if faulted:
+            # an exception travelling through the listener fan-out (our injected Ctrl-C) reaches the Controller before the
+            # harness's own listener: the harness's copy may lack that message; the tool's own record is judged below
+            V.bump('tracker_snapshot_not_judged_after_injected_output_fault')
+        elif len(snaps) != len(truth) or any(s.name != c.name for s, c in zip(snaps, truth)):
             rep('C06', 'C06/not-recorded', 'messages()', 'connection %s recorded %d messages, history has %d' % (nm, len(snaps), len(truth)))
         if res.exception is None and getattr(res, 'conn_manager', None) is not None:
             conns = [c for c in res.conn_manager.connections() if c.name() == nm]
